@@ -427,6 +427,9 @@ def run_apps(chk, tier):
             st["main_hang"] += 1; chk.hist("app:discarded:mainloop-hangs(F14)"); continue
         if 5 in a[0]:
             st["step_limit"] += 1; chk.hist("app:discarded:step-limit"); continue
+        import screen_check as _sc
+        if _sc.handler_nesting(a[1]) > _sc.MAX_NESTING or (b[0] not in ("HANG", "ERROR") and _sc.handler_nesting(b[1]) > _sc.MAX_NESTING):
+            chk.hist("app:discarded:handler-nesting"); continue      # CPython's recursion limit would interfere (see screen_check)
         if b[0] == "HANG" or 5 in b[0]:
             suspects.append((c, a, b)); continue
         kept.append(([200 + 8 * max(len(a[1]), len(b[1]))] + c[1:6], a, b))
